@@ -301,7 +301,7 @@ func sourceErrorProblem(se liquid.SourceError) (problem string) {
 
 // canonErr prints the canonical error result.
 func (c engineCfg) canonErr(se liquid.SourceError, parsePhase bool) string {
-	return fmt.Sprintf("err %s %d %s %s", errKind(se, parsePhase), se.LineNumber(), hexField(c.canonPath(se.Path())), causeKind(se.Cause()))
+	return fmt.Sprintf("err %s %d %s %s", errKind(se, parsePhase), se.LineNumber(), hexField(c.canonPath(se.Path())), coarseCause(causeKind(se.Cause())))
 }
 
 func canonOK(out []byte) string { return "ok " + hexField(string(out)) }
